@@ -60,7 +60,7 @@ package engine
 //@   requires poolShape(gp)
 //@   ensures [C16] rejected: !(execModel == 1 || execModel == 2 || execModel == 3 || execModel == 4) ==> result != nil
 //@   ensures [C16] accepted: (execModel == 1 || execModel == 2 || execModel == 3 || execModel == 4) ==> result == nil
-//@   modifies gp.execModel, gp.clear, gp.ruleBuilder, builder.RuleBuilder.Kc
+//@   modifies gp.execModel, gp.clear, gp.ruleBuilder
 //@   nopanic
 
 //@ func (*GenginePool).GetExecModel
@@ -68,7 +68,7 @@ package engine
 //@   entry nolocks
 //@   requires poolShape(gp)
 //@   ensures [C16] valid: result == 1 || result == 2 || result == 3 || result == 4
-//@   modifies gp.execModel, gp.clear, gp.ruleBuilder, builder.RuleBuilder.Kc
+//@   modifies gp.execModel, gp.clear, gp.ruleBuilder
 //@   nopanic
 
 //@ func (*GenginePool).GetRulesNumber
@@ -76,7 +76,7 @@ package engine
 //@   entry nolocks
 //@   requires poolShape(gp)
 //@   ensures [C16] nonneg: result >= 0
-//@   modifies gp.execModel, gp.clear, gp.ruleBuilder, builder.RuleBuilder.Kc
+//@   modifies gp.execModel, gp.clear, gp.ruleBuilder
 //@   nopanic
 
 //@ func (*GenginePool).GetRuleSalience
@@ -87,7 +87,7 @@ package engine
 //@   oncall (*sync.Mutex).Unlock
 //@     before found := !gp.clear && (ruleName in gp.ruleBuilder.Kc.RuleEntities)
 //@   ensures [C16] agrees: (result.1 == nil) <==> found
-//@   modifies gp.execModel, gp.clear, gp.ruleBuilder, builder.RuleBuilder.Kc
+//@   modifies gp.execModel, gp.clear, gp.ruleBuilder
 //@   nopanic
 
 //@ func (*GenginePool).GetRuleDesc
@@ -98,7 +98,7 @@ package engine
 //@   oncall (*sync.Mutex).Unlock
 //@     before found := !gp.clear && (ruleName in gp.ruleBuilder.Kc.RuleEntities)
 //@   ensures [C16] agrees: (result.1 == nil) <==> found
-//@   modifies gp.execModel, gp.clear, gp.ruleBuilder, builder.RuleBuilder.Kc
+//@   modifies gp.execModel, gp.clear, gp.ruleBuilder
 //@   nopanic
 
 //@ func (*GenginePool).IsExist
@@ -106,7 +106,7 @@ package engine
 //@   entry nolocks
 //@   requires poolShape(gp)
 //@   ensures [C16] length: len(result) == len(ruleNames)
-//@   modifies gp.execModel, gp.clear, gp.ruleBuilder, builder.RuleBuilder.Kc
+//@   modifies gp.execModel, gp.clear, gp.ruleBuilder
 //@   nopanic
 //@   loop 0 invariant cleared: held(gp.updateLock) && len(exist) == i && 0 <= i && i <= len(ruleNames) && (isnil(exist) || fresh(arr(exist))) && lo(exist) == 0 && (gp.clear || gp.ruleBuilder == nil)
 //@   loop 0 invariant allfalse: forall qi :: 0 <= qi && qi < len(exist) ==> !exist[qi]
@@ -139,6 +139,7 @@ package engine
 //@     after m0 := gp.ruleBuilder
 //@   oncall makeRuleBuilder
 //@     after newkc := ite(callresult.1 == nil, callresult.0.Kc, nil)
+//@     after rbidx[callresult.0] := -1
 //@   oncall (*sync.Mutex).Unlock
 //@     before unchanged := gp.ruleBuilder == m0
 //@     before published := gp.ruleBuilder != nil && gp.ruleBuilder.Kc == newkc && !gp.clear && (forall qa :: lo(gp.rbSlice) <= qa && qa < hi(gp.rbSlice) ==> at(gp.rbSlice, qa).Kc == newkc)
@@ -146,7 +147,7 @@ package engine
 //@   ensures [C10] allornothing: result != nil ==> unchanged
 //@   ensures [C07,C16] publishedtoall: result == nil ==> published && newkc != nil
 //@   modifies gp.execModel, gp.clear, gp.ruleBuilder, builder.RuleBuilder.Kc
-//@   loop 0 invariant pub: held(gp.updateLock) && 0 <= i && i <= gp.max && gp.ruleBuilder != nil && (forall qa :: lo(gp.rbSlice) <= qa && qa < hi(gp.rbSlice) ==> at(gp.rbSlice, qa) != gp.ruleBuilder) && gp.ruleBuilder.Kc == newkc && newkc != nil && wfKc(newkc) && fresh(newkc) && (gp.execModel == 1 || gp.execModel == 2 || gp.execModel == 3 || gp.execModel == 4)
+//@   loop 0 invariant pub: held(gp.updateLock) && 0 <= i && i <= gp.max && gp.ruleBuilder != nil && gget(rbidx, gp.ruleBuilder) == -1 && gp.ruleBuilder.Kc == newkc && newkc != nil && wfKc(newkc) && fresh(newkc) && (gp.execModel == 1 || gp.execModel == 2 || gp.execModel == 3 || gp.execModel == 4)
 //@   loop 0 invariant done: forall qa :: lo(gp.rbSlice) <= qa && qa < lo(gp.rbSlice) + i ==> at(gp.rbSlice, qa).Kc == newkc
 //@   loop 0 invariant rest: forall qa :: lo(gp.rbSlice) + i <= qa && qa < hi(gp.rbSlice) ==> wfKc(at(gp.rbSlice, qa).Kc)
 //@   loop 0 decreases gp.max - i
@@ -163,7 +164,7 @@ package engine
 //@   ensures [C16] allempty: cleared
 //@   modifies gp.execModel, gp.clear, gp.ruleBuilder, builder.RuleBuilder.Kc
 //@   nopanic
-//@   loop 0 invariant pub: held(gp.updateLock) && 0 <= i && i <= gp.max && gp.clear && gp.ruleBuilder != nil && (forall qa :: lo(gp.rbSlice) <= qa && qa < hi(gp.rbSlice) ==> at(gp.rbSlice, qa) != gp.ruleBuilder) && wfKc(gp.ruleBuilder.Kc) && emptymap(gp.ruleBuilder.Kc.RuleEntities) && (gp.execModel == 1 || gp.execModel == 2 || gp.execModel == 3 || gp.execModel == 4)
+//@   loop 0 invariant pub: held(gp.updateLock) && 0 <= i && i <= gp.max && gp.clear && gp.ruleBuilder != nil && gget(rbidx, gp.ruleBuilder) == -1 && wfKc(gp.ruleBuilder.Kc) && emptymap(gp.ruleBuilder.Kc.RuleEntities) && (gp.execModel == 1 || gp.execModel == 2 || gp.execModel == 3 || gp.execModel == 4)
 //@   loop 0 invariant done: forall qa :: lo(gp.rbSlice) <= qa && qa < lo(gp.rbSlice) + i ==> wfKc(at(gp.rbSlice, qa).Kc) && emptymap(at(gp.rbSlice, qa).Kc.RuleEntities)
 //@   loop 0 invariant rest: forall qa :: lo(gp.rbSlice) + i <= qa && qa < hi(gp.rbSlice) ==> wfKc(at(gp.rbSlice, qa).Kc)
 //@   loop 0 decreases gp.max - i
@@ -184,7 +185,7 @@ package engine
 //@   ensures [C16] emptylist: len(ruleNames) == 0 ==> result != nil
 //@   modifies gp.execModel, gp.clear, gp.ruleBuilder, builder.RuleBuilder.Kc
 //@   nopanic
-//@   loop 0 invariant pub: held(gp.updateLock) && -1 <= rangeindex && rangeindex < len(gp.rbSlice) && len(ruleNames) > 0 && gp.ruleBuilder != nil && (forall qa :: lo(gp.rbSlice) <= qa && qa < hi(gp.rbSlice) ==> at(gp.rbSlice, qa) != gp.ruleBuilder) && wfKc(gp.ruleBuilder.Kc) && (gp.execModel == 1 || gp.execModel == 2 || gp.execModel == 3 || gp.execModel == 4) && (gp.clear ==> emptymap(gp.ruleBuilder.Kc.RuleEntities))
+//@   loop 0 invariant pub: held(gp.updateLock) && -1 <= rangeindex && rangeindex < len(gp.rbSlice) && len(ruleNames) > 0 && gp.ruleBuilder != nil && gget(rbidx, gp.ruleBuilder) == -1 && wfKc(gp.ruleBuilder.Kc) && (gp.execModel == 1 || gp.execModel == 2 || gp.execModel == 3 || gp.execModel == 4) && (gp.clear ==> emptymap(gp.ruleBuilder.Kc.RuleEntities))
 //@   loop 0 invariant view: forall k: string :: (k in gp.ruleBuilder.Kc.RuleEntities) ==> (k in RE0) && gp.ruleBuilder.Kc.RuleEntities[k] == RE0[k] && (forall qi :: lo(ruleNames) <= qi && qi < hi(ruleNames) ==> at(ruleNames, qi) != k)
 //@   loop 0 invariant viewonto: forall k: string :: (k in RE0) && !(k in gp.ruleBuilder.Kc.RuleEntities) ==> exists qi :: lo(ruleNames) <= qi && qi < hi(ruleNames) && at(ruleNames, qi) == k
 //@   loop 0 invariant done: forall qa :: lo(gp.rbSlice) <= qa && qa <= lo(gp.rbSlice) + rangeindex ==> wfKc(at(gp.rbSlice, qa).Kc) && sameView(at(gp.rbSlice, qa).Kc, gp.ruleBuilder.Kc)
@@ -207,6 +208,10 @@ package engine
 //@   ensures [C16,C17] built: result.1 == nil ==> result.0 != nil && fresh(result.0) && poolShape(result.0) && poolRules(result.0) && listOK(result.0, result.0.freeGengines, false) && listOK(result.0, result.0.additionGengines, true) && result.0.max == poolMaxLen && len(result.0.freeGengines) == poolMinLen && len(result.0.additionGengines) == poolMaxLen - poolMinLen && !result.0.clear
 //@   ensures [C06] owncontext: result.1 == nil ==> forall qa, qb :: lo(result.0.rbSlice) <= qa && qa < qb && qb < hi(result.0.rbSlice) ==> at(result.0.rbSlice, qa).Dc != at(result.0.rbSlice, qb).Dc
 //@   ensures failed: result.1 != nil ==> result.0 == nil
+//@   oncall makeRuleBuilder
+//@     after rbidx[callresult.0] := -1
+//@   oncall builder.NewRuleBuilder
+//@     after rbidx[callresult] := i
 //@   modifies nothing
 //@   loop 0 invariant fill: 0 <= i && i <= poolMinLen && len(fg) == poolMinLen && fresh(arr(fg)) && lo(fg) == 0 && 0 < poolMinLen && poolMinLen < poolMaxLen
 //@   loop 0 invariant elems: forall qa :: 0 <= qa && qa < i ==> at(fg, qa) != nil && fresh(at(fg, qa)) && allocated(at(fg, qa)) && at(fg, qa).tag == qa && !at(fg, qa).addition && at(fg, qa).gengine != nil && gget(inlist, at(fg, qa)) == 1
@@ -215,18 +220,18 @@ package engine
 //@   loop 1 invariant felems: forall qa :: 0 <= qa && qa < poolMinLen ==> at(fg, qa) != nil && fresh(at(fg, qa)) && allocated(at(fg, qa)) && at(fg, qa).tag == qa && !at(fg, qa).addition && at(fg, qa).gengine != nil && gget(inlist, at(fg, qa)) == 1
 //@   loop 1 invariant elems: forall qa :: 0 <= qa && qa < j ==> at(ag, qa) != nil && fresh(at(ag, qa)) && allocated(at(ag, qa)) && at(ag, qa).tag == qa + poolMinLen && at(ag, qa).addition && at(ag, qa).gengine != nil && gget(inlist, at(ag, qa)) == 1
 //@   loop 1 decreases poolMaxLen - poolMinLen - j
-//@   loop 2 invariant fill: 0 <= i && i <= poolMaxLen && len(rbs) == poolMaxLen && fresh(arr(rbs)) && lo(rbs) == 0 && srcRb != nil && fresh(srcRb) && wfKc(srcRb.Kc) && fresh(srcRb.Kc) && 0 < poolMinLen && poolMinLen < poolMaxLen
+//@   loop 2 invariant fill: gget(rbidx, srcRb) == -1 && 0 <= i && i <= poolMaxLen && len(rbs) == poolMaxLen && fresh(arr(rbs)) && lo(rbs) == 0 && srcRb != nil && fresh(srcRb) && wfKc(srcRb.Kc) && fresh(srcRb.Kc) && 0 < poolMinLen && poolMinLen < poolMaxLen
 //@   loop 2 invariant keep: len(ag) == poolMaxLen - poolMinLen && fresh(arr(ag)) && lo(ag) == 0 && len(fg) == poolMinLen && fresh(arr(fg)) && lo(fg) == 0 && arr(fg) != arr(ag)
 //@   loop 2 invariant felems: forall qa :: 0 <= qa && qa < poolMinLen ==> at(fg, qa) != nil && fresh(at(fg, qa)) && allocated(at(fg, qa)) && at(fg, qa).tag == qa && !at(fg, qa).addition && at(fg, qa).gengine != nil && gget(inlist, at(fg, qa)) == 1
 //@   loop 2 invariant aelems: forall qa :: 0 <= qa && qa < poolMaxLen - poolMinLen ==> at(ag, qa) != nil && fresh(at(ag, qa)) && allocated(at(ag, qa)) && at(ag, qa).tag == qa + poolMinLen && at(ag, qa).addition && at(ag, qa).gengine != nil && gget(inlist, at(ag, qa)) == 1
-//@   loop 2 invariant relems: forall qa :: 0 <= qa && qa < i ==> at(rbs, qa) != nil && fresh(at(rbs, qa)) && allocated(at(rbs, qa)) && allocated(at(rbs, qa).Dc) && at(rbs, qa) != srcRb && at(rbs, qa).Kc == srcRb.Kc && at(rbs, qa).Dc != nil && fresh(at(rbs, qa).Dc) && at(rbs, qa).Dc.base != nil
+//@   loop 2 invariant relems: forall qa :: 0 <= qa && qa < i ==> at(rbs, qa) != nil && fresh(at(rbs, qa)) && allocated(at(rbs, qa)) && allocated(at(rbs, qa).Dc) && at(rbs, qa) != srcRb && gget(rbidx, at(rbs, qa)) == qa && at(rbs, qa).Kc == srcRb.Kc && at(rbs, qa).Dc != nil && fresh(at(rbs, qa).Dc) && at(rbs, qa).Dc.base != nil
 //@   loop 2 invariant rdistinct: forall qa, qb :: 0 <= qa && qa < qb && qb < i ==> at(rbs, qa) != at(rbs, qb) && at(rbs, qa).Dc != at(rbs, qb).Dc
 //@   loop 2 decreases poolMaxLen - i
-//@   loop 3 invariant inner: 0 <= i && i < poolMaxLen && dataContext != nil && fresh(dataContext) && dataContext.base != nil && fresh(dataContext.base) && !held(dataContext.lockBase) && len(rbs) == poolMaxLen && fresh(arr(rbs)) && lo(rbs) == 0 && srcRb != nil && fresh(srcRb) && wfKc(srcRb.Kc) && fresh(srcRb.Kc) && 0 < poolMinLen && poolMinLen < poolMaxLen
+//@   loop 3 invariant inner: gget(rbidx, srcRb) == -1 && 0 <= i && i < poolMaxLen && dataContext != nil && fresh(dataContext) && dataContext.base != nil && fresh(dataContext.base) && !held(dataContext.lockBase) && len(rbs) == poolMaxLen && fresh(arr(rbs)) && lo(rbs) == 0 && srcRb != nil && fresh(srcRb) && wfKc(srcRb.Kc) && fresh(srcRb.Kc) && 0 < poolMinLen && poolMinLen < poolMaxLen
 //@   loop 3 invariant keep: len(ag) == poolMaxLen - poolMinLen && fresh(arr(ag)) && lo(ag) == 0 && len(fg) == poolMinLen && fresh(arr(fg)) && lo(fg) == 0 && arr(fg) != arr(ag)
 //@   loop 3 invariant felems: forall qa :: 0 <= qa && qa < poolMinLen ==> at(fg, qa) != nil && fresh(at(fg, qa)) && allocated(at(fg, qa)) && at(fg, qa).tag == qa && !at(fg, qa).addition && at(fg, qa).gengine != nil && gget(inlist, at(fg, qa)) == 1
 //@   loop 3 invariant aelems: forall qa :: 0 <= qa && qa < poolMaxLen - poolMinLen ==> at(ag, qa) != nil && fresh(at(ag, qa)) && allocated(at(ag, qa)) && at(ag, qa).tag == qa + poolMinLen && at(ag, qa).addition && at(ag, qa).gengine != nil && gget(inlist, at(ag, qa)) == 1
-//@   loop 3 invariant relems: forall qa :: 0 <= qa && qa < i ==> at(rbs, qa) != nil && fresh(at(rbs, qa)) && allocated(at(rbs, qa)) && allocated(at(rbs, qa).Dc) && at(rbs, qa) != srcRb && at(rbs, qa).Kc == srcRb.Kc && at(rbs, qa).Dc != nil && fresh(at(rbs, qa).Dc) && at(rbs, qa).Dc.base != nil && at(rbs, qa).Dc != dataContext
+//@   loop 3 invariant relems: forall qa :: 0 <= qa && qa < i ==> at(rbs, qa) != nil && fresh(at(rbs, qa)) && allocated(at(rbs, qa)) && allocated(at(rbs, qa).Dc) && at(rbs, qa) != srcRb && gget(rbidx, at(rbs, qa)) == qa && at(rbs, qa).Kc == srcRb.Kc && at(rbs, qa).Dc != nil && fresh(at(rbs, qa).Dc) && at(rbs, qa).Dc.base != nil && at(rbs, qa).Dc != dataContext
 //@   loop 3 invariant rdistinct: forall qa, qb :: 0 <= qa && qa < qb && qb < i ==> at(rbs, qa) != at(rbs, qb) && at(rbs, qa).Dc != at(rbs, qb).Dc
 
 // ---------------------------------------------------------------------------
@@ -243,7 +248,8 @@ package engine
 //@   ensures [C07] snapshot: result.0.rulebuilder != nil && fresh(result.0.rulebuilder) && wfKc(result.0.rulebuilder.Kc)
 //@   ensures [C06] owncontext: result.0.rulebuilder.Dc == gp.rbSlice[result.0.tag].Dc && result.0.rulebuilder.Dc != nil
 //@   modifies frame poolrequest
-//@   loopwrites gp.rbSlice[0].Dc
+//@   nopanic
+//@   loopwrites mapsof(map[string]reflect.Value)
 //@   loop 0 invariant took: wrapperOK(gp, gw) && gget(inlist, gw) == 0 && gw.rulebuilder != nil && fresh(gw.rulebuilder) && wfKc(gw.rulebuilder.Kc) && gw.rulebuilder.Dc == gp.rbSlice[gw.tag].Dc && gw.rulebuilder.Dc != nil && gw.rulebuilder.Dc.base != nil && !held(gw.rulebuilder.Dc.lockBase)
 
 //@ func (*GenginePool).prepare
@@ -255,6 +261,7 @@ package engine
 //@   ensures [C07] snapshot: result.0.rulebuilder != nil && fresh(result.0.rulebuilder) && wfKc(result.0.rulebuilder.Kc)
 //@   ensures [C06] owncontext: result.0.rulebuilder.Dc == gp.rbSlice[result.0.tag].Dc && result.0.rulebuilder.Dc != nil
 //@   modifies frame poolrequest
+//@   nopanic
 
 //@ func getKeys
 //@   props C06
@@ -269,3 +276,237 @@ package engine
 //@   ensures [C06] cleaned: gw != nil && gw.rulebuilder != nil && gw.rulebuilder.Dc != nil ==> forall qi :: lo(keys) <= qi && qi < hi(keys) ==> !(at(keys, qi) in gw.rulebuilder.Dc.base)
 //@   modifies mapsof(map[string]reflect.Value)
 //@   nopanic
+
+// ---------------------------------------------------------------------------
+// the 24 pooled execute methods and their deferred cleanup closures (generated from one template)
+
+//@ func (*GenginePool).isCleared
+//@   props C16 C19 C09
+//@   entry nolocks
+//@   requires poolShape(gp)
+//@   ensures true
+//@   modifies gp.execModel, gp.clear, gp.ruleBuilder
+//@   nopanic
+
+//@ func (*Gengine).GetRulesResultMap
+//@   props C11
+//@   ensures result.0 == g.returnResult && result.1 == nil
+//@   modifies nothing
+//@   nopanic
+
+//@ func (*GenginePool).Execute$1
+//@   use poolclosure()
+
+//@ func (*GenginePool).Execute
+//@   props C06 C11 C16 C17 C19 C09
+//@   use poolwrapper(prepareWithMultiInput)
+//@   use poolcall(Execute)
+
+//@ func (*GenginePool).ExecuteConcurrent$1
+//@   use poolclosure()
+
+//@ func (*GenginePool).ExecuteConcurrent
+//@   props C06 C11 C16 C17 C19 C09
+//@   use poolwrapper(prepareWithMultiInput)
+//@   use poolcall(ExecuteConcurrent)
+
+//@ func (*GenginePool).ExecuteDAGModel$1
+//@   use poolclosure()
+
+//@ func (*GenginePool).ExecuteDAGModel
+//@   props C06 C11 C16 C17 C19 C09
+//@   use poolwrapper(prepareWithMultiInput)
+//@   use poolcall(ExecuteDAGModel)
+
+//@ func (*GenginePool).ExecuteInverseMixModel$1
+//@   use poolclosure()
+
+//@ func (*GenginePool).ExecuteInverseMixModel
+//@   props C06 C11 C16 C17 C19 C09
+//@   use poolwrapper(prepareWithMultiInput)
+//@   use poolcall(ExecuteInverseMixModel)
+
+//@ func (*GenginePool).ExecuteMixModel$1
+//@   use poolclosure()
+
+//@ func (*GenginePool).ExecuteMixModel
+//@   props C06 C11 C16 C17 C19 C09
+//@   use poolwrapper(prepareWithMultiInput)
+//@   use poolcall(ExecuteMixModel)
+
+//@ func (*GenginePool).ExecuteMixModelWithStopTagDirect$1
+//@   use poolclosure()
+
+//@ func (*GenginePool).ExecuteMixModelWithStopTagDirect
+//@   props C06 C11 C16 C17 C19 C09
+//@   requires sTag != nil
+//@   use poolwrapper(prepareWithMultiInput)
+//@   use poolcall(ExecuteMixModelWithStopTagDirect)
+
+//@ func (*GenginePool).ExecuteNConcurrentMConcurrent$1
+//@   use poolclosure()
+
+//@ func (*GenginePool).ExecuteNConcurrentMConcurrent
+//@   props C06 C11 C16 C17 C19 C09
+//@   requires nSort <= 1000000000 && mConcurrent <= 1000000000
+//@   use poolwrapper(prepareWithMultiInput)
+//@   use poolcall(ExecuteNConcurrentMConcurrent)
+
+//@ func (*GenginePool).ExecuteNConcurrentMSort$1
+//@   use poolclosure()
+
+//@ func (*GenginePool).ExecuteNConcurrentMSort
+//@   props C06 C11 C16 C17 C19 C09
+//@   requires nSort <= 1000000000 && mConcurrent <= 1000000000
+//@   use poolwrapper(prepareWithMultiInput)
+//@   use poolcall(ExecuteNConcurrentMSort)
+
+//@ func (*GenginePool).ExecuteNSortMConcurrent$1
+//@   use poolclosure()
+
+//@ func (*GenginePool).ExecuteNSortMConcurrent
+//@   props C06 C11 C16 C17 C19 C09
+//@   requires nSort <= 1000000000 && mConcurrent <= 1000000000
+//@   use poolwrapper(prepareWithMultiInput)
+//@   use poolcall(ExecuteNSortMConcurrent)
+
+//@ func (*GenginePool).ExecuteRulesWithMultiInputWithSpecifiedEM$1
+//@   use poolclosure()
+
+//@ func (*GenginePool).ExecuteRulesWithMultiInputWithSpecifiedEM
+//@   props C06 C11 C16 C17 C19 C09
+//@   use poolwrapper(prepareWithMultiInput)
+//@   use poolcall(Execute)
+//@   use poolcall(ExecuteConcurrent)
+//@   use poolcall(ExecuteMixModel)
+//@   use poolcall(ExecuteInverseMixModel)
+
+//@ func (*GenginePool).ExecuteRulesWithSpecifiedEM$1
+//@   props C06 C17 C09
+//@   entry nolocks
+//@   requires gp != nil && wrapperOK(gp, gw) && gget(inlist, gw) == 0 && gw.rulebuilder != nil && gw.rulebuilder.Dc != nil
+//@   ensures [C17] returned: gget(inlist, gw) == 1
+//@   ensures [C06] cleaned: !(reqName in gw.rulebuilder.Dc.base) && !(respName in gw.rulebuilder.Dc.base)
+//@   modifies frame poolrequest
+//@   nopanic
+
+//@ func (*GenginePool).ExecuteRulesWithSpecifiedEM
+//@   props C06 C11 C16 C17 C19 C09
+//@   use poolwrapper(prepare)
+//@   use poolcall(Execute)
+//@   use poolcall(ExecuteConcurrent)
+//@   use poolcall(ExecuteMixModel)
+//@   use poolcall(ExecuteInverseMixModel)
+
+//@ func (*GenginePool).ExecuteSelectedNConcurrentMConcurrent$1
+//@   use poolclosure()
+
+//@ func (*GenginePool).ExecuteSelectedNConcurrentMConcurrent
+//@   props C06 C11 C16 C17 C19 C09
+//@   requires nSort <= 1000000000 && mConcurrent <= 1000000000
+//@   use poolwrapper(prepareWithMultiInput)
+//@   use poolcall(ExecuteSelectedNConcurrentMConcurrent)
+
+//@ func (*GenginePool).ExecuteSelectedNConcurrentMSort$1
+//@   use poolclosure()
+
+//@ func (*GenginePool).ExecuteSelectedNConcurrentMSort
+//@   props C06 C11 C16 C17 C19 C09
+//@   requires nSort <= 1000000000 && mConcurrent <= 1000000000
+//@   use poolwrapper(prepareWithMultiInput)
+//@   use poolcall(ExecuteSelectedNConcurrentMSort)
+
+//@ func (*GenginePool).ExecuteSelectedNSortMConcurrent$1
+//@   use poolclosure()
+
+//@ func (*GenginePool).ExecuteSelectedNSortMConcurrent
+//@   props C06 C11 C16 C17 C19 C09
+//@   requires nSort <= 1000000000 && mConcurrent <= 1000000000
+//@   use poolwrapper(prepareWithMultiInput)
+//@   use poolcall(ExecuteSelectedNSortMConcurrent)
+
+//@ func (*GenginePool).ExecuteSelectedRules$1
+//@   use poolclosure()
+
+//@ func (*GenginePool).ExecuteSelectedRules
+//@   props C06 C11 C16 C17 C19 C09
+//@   use poolwrapper(prepareWithMultiInput)
+//@   use poolcall(ExecuteSelectedRules)
+
+//@ func (*GenginePool).ExecuteSelectedRulesConcurrent$1
+//@   use poolclosure()
+
+//@ func (*GenginePool).ExecuteSelectedRulesConcurrent
+//@   props C06 C11 C16 C17 C19 C09
+//@   use poolwrapper(prepareWithMultiInput)
+//@   use poolcall(ExecuteSelectedRulesConcurrent)
+
+//@ func (*GenginePool).ExecuteSelectedRulesInverseMixModel$1
+//@   use poolclosure()
+
+//@ func (*GenginePool).ExecuteSelectedRulesInverseMixModel
+//@   props C06 C11 C16 C17 C19 C09
+//@   use poolwrapper(prepareWithMultiInput)
+//@   use poolcall(ExecuteSelectedRulesInverseMixModel)
+
+//@ func (*GenginePool).ExecuteSelectedRulesMixModel$1
+//@   use poolclosure()
+
+//@ func (*GenginePool).ExecuteSelectedRulesMixModel
+//@   props C06 C11 C16 C17 C19 C09
+//@   use poolwrapper(prepareWithMultiInput)
+//@   use poolcall(ExecuteSelectedRulesMixModel)
+
+//@ func (*GenginePool).ExecuteSelectedRulesWithControl$1
+//@   use poolclosure()
+
+//@ func (*GenginePool).ExecuteSelectedRulesWithControl
+//@   props C06 C11 C16 C17 C19 C09
+//@   use poolwrapper(prepareWithMultiInput)
+//@   use poolcall(ExecuteSelectedRulesWithControl)
+
+//@ func (*GenginePool).ExecuteSelectedRulesWithControlAndStopTag$1
+//@   use poolclosure()
+
+//@ func (*GenginePool).ExecuteSelectedRulesWithControlAndStopTag
+//@   props C06 C11 C16 C17 C19 C09
+//@   requires sTag != nil
+//@   use poolwrapper(prepareWithMultiInput)
+//@   use poolcall(ExecuteSelectedRulesWithControlAndStopTag)
+
+//@ func (*GenginePool).ExecuteSelectedRulesWithControlAndStopTagAsGivenSortedName$1
+//@   use poolclosure()
+
+//@ func (*GenginePool).ExecuteSelectedRulesWithControlAndStopTagAsGivenSortedName
+//@   props C06 C11 C16 C17 C19 C09
+//@   requires sTag != nil
+//@   use poolwrapper(prepareWithMultiInput)
+//@   use poolcall(ExecuteSelectedRulesWithControlAndStopTagAsGivenSortedName)
+
+//@ func (*GenginePool).ExecuteSelectedRulesWithControlAsGivenSortedName$1
+//@   use poolclosure()
+
+//@ func (*GenginePool).ExecuteSelectedRulesWithControlAsGivenSortedName
+//@   props C06 C11 C16 C17 C19 C09
+//@   use poolwrapper(prepareWithMultiInput)
+//@   use poolcall(ExecuteSelectedRulesWithControlAsGivenSortedName)
+
+//@ func (*GenginePool).ExecuteSelectedWithSpecifiedEM$1
+//@   use poolclosure()
+
+//@ func (*GenginePool).ExecuteSelectedWithSpecifiedEM
+//@   props C06 C11 C16 C17 C19 C09
+//@   use poolwrapper(prepareWithMultiInput)
+//@   use poolcall(ExecuteSelectedRules)
+//@   use poolcall(ExecuteSelectedRulesConcurrent)
+//@   use poolcall(ExecuteSelectedRulesMixModel)
+//@   use poolcall(ExecuteSelectedRulesInverseMixModel)
+
+//@ func (*GenginePool).ExecuteWithStopTagDirect$1
+//@   use poolclosure()
+
+//@ func (*GenginePool).ExecuteWithStopTagDirect
+//@   props C06 C11 C16 C17 C19 C09
+//@   requires sTag != nil
+//@   use poolwrapper(prepareWithMultiInput)
+//@   use poolcall(ExecuteWithStopTagDirect)
